@@ -22,9 +22,14 @@
                                             owner thread or a thread the new owner waits for
     w6_no_dependents_without_owner          (runC) with transfers: dependents ⇒ sync entry with anyone_waiting;
                                             no sync entry ⇒ no dependents; stale `Transferred` ⇒ no dependents
-    w3_handback_wakes_waiters               (runC) `release_self` of a re-claimed transferred key (salsa 451fce7)
-                                            leaves NO dependents on it: all get `Completed`, none keeps an edge
-                                            to the releasing thread
+    w3_handback_wakes_waiters               (runC) `release_self` of a re-claimed transferred key whose transfer
+                                            chain does NOT resolve to the releasing thread (salsa 451fce7, condition
+                                            since e06010e) leaves NO dependents on it: all get `Completed`, none
+                                            keeps an edge to the releasing thread
+    w3_handback_own_target_accurate         (every state) `release_self` of a re-claimed transferred key whose chain
+                                            resolves to the releasing thread (it owns the transfer target) wakes
+                                            nobody and changes only the sync entry; every waiter whose edge satisfied
+                                            the `claimed_twice` clause of W3 satisfies the `Transferred` clause after
     c19_depends_on_decides                  depends_on terminates and decides reachability
     c19_cycle_reported, c19_block_only_if_acyclic, c19_claim_enabled   (keys owned by a thread)
   PROVED FOR THE PROTOCOL WITHOUT `transfer` (`basicOps`; no key is ever `Transferred`)
@@ -41,7 +46,7 @@
       pre-451fce7 `release_self` (corpus/DG/kf-stale-edge-prefix.ops), which it flags.  A proof needs an
       invariant tying sync table, `transferred` chains (with stale thread fields), the edge re-pointing
       of `update_transferred_edges` and the client `debug_assert`s of `transfer_lock` together; only the
-      hand-back part is proved (`w3_handback_wakes_waiters`).
+      hand-back part is proved (`w3_handback_wakes_waiters`, `w3_handback_own_target_accurate`).
     * w6_no_lost_wakeup (full), delivery part: release of a transfer target delivers the result `r` to the
       dependents of every key transitively transferred to it.  Proved: those keys end with an empty
       dependents list (`w6_no_dependents_without_owner`) and every thread that left a list lost its edge
@@ -57,6 +62,7 @@
 -/
 import SalsaVerif.Proofs.SyncDGReach
 import SalsaVerif.Proofs.SyncDGWaiters2
+import SalsaVerif.Proofs.SyncDGHandback
 
 namespace SalsaVerif.Props.C19
 open SalsaVerif.Model.SyncDG SalsaVerif.Proofs.SyncDG
@@ -77,6 +83,15 @@ def transferOps : List Op :=
   [.claim 0 1 true true, .claim 1 2 true true, .claim 1 1 true true, .claim 0 2 true true,
    .transfer 0 1 2, .wake 1, .claim 1 1 true true, .releaseSelf 1 1, .claim 2 1 true true,
    .release 1 2 .completed, .wake 0, .wake 2, .claim 2 1 true true, .release 2 1 .completed]
+
+/-- A trace in which a thread re-claims a transferred key whose transfer target is owned by ANOTHER thread
+    (possible because that thread is blocked on it): t0 owns k3; t1 owns k2 and k1 and transfers k1 to k2
+    (same thread: nobody is woken), then blocks on k3 (edge t1 → t0); t0 re-claims k1 (`block_transferred`
+    resolves k1 to t1, which waits for t0: "I'm the owner", `claimed_twice`); t2 blocks on k1 (edge t2 → t0);
+    t0 hands k1 back (`release_self`): the chain of k1 resolves to t1 ≠ t0, so t2 is woken. -/
+def handbackOps : List Op :=
+  [.claim 0 3 true true, .claim 1 2 true true, .claim 1 1 true true, .transfer 1 1 2,
+   .claim 1 3 true true, .claim 0 1 true true, .claim 2 1 true true, .releaseSelf 0 1]
 
 /-! ### W2 — waits are never cyclic (full: every `Op`, including transfers) -/
 
@@ -284,33 +299,93 @@ theorem w6_no_dependents_without_owner (ops : List Op) (s : State) (h : runC ini
   have hq := runC_qinv ops init s GInv_init Forest_init QInv_init h
   exact ⟨hq.aw, fun k hk => hq.sync_none hk, hq.stale⟩
 
-/-- W3, hand-back part (salsa 451fce7): when thread `t` gives a re-claimed transferred key `k`
-    (`claimed_twice`) back to its transfer target (`release_self`), the key is `Transferred` again and
-    has NO dependents afterwards: every thread that was waiting on it — in particular every thread
-    whose edge pointed at `t` — has received `Completed` and lost its edge, so no stale edge to the
-    releasing thread survives (the cause of the deadlock recorded in corpus/C18). -/
+/-- W3, hand-back part (salsa 451fce7; condition since e06010e): when thread `t` gives a re-claimed
+    transferred key `k` (`claimed_twice`) back to its transfer target (`release_self`) and the transfer
+    chain of `k` does NOT resolve to `t` (the target is owned by another thread, which is blocked on `t`),
+    the key is `Transferred` again and has NO dependents afterwards: every thread that was waiting on it —
+    in particular every thread whose edge pointed at `t` — has received `Completed` and lost its edge, so
+    no stale edge to the releasing thread survives (the cause of the deadlock recorded in corpus/C18).
+    (Before e06010e the model woke unconditionally and this theorem had no `hno`; with `hno` dropped it
+    is false now: see `w3_handback_own_target_accurate` and the example below it.) -/
 theorem w3_handback_wakes_waiters (ops : List Op) (s : State) (h : runC init ops = some s)
-    (t k : Nat) (st : SyncState) (hk : s.sync k = some st) (hct : st.claimedTwice = true) (s' : State)
+    (t k : Nat) (st : SyncState) (hk : s.sync k = some st) (hct : st.claimedTwice = true)
+    (hno : resolvedOwner s k ≠ some t) (s' : State)
     (hs : step s (.releaseSelf t k) = some s') :
     s'.qdeps k = [] ∧
     (∃ st', s'.sync k = some st' ∧ st'.owner = .transferred ∧ st'.anyoneWaiting = false) ∧
     (∀ u, u ∈ s.qdeps k → s'.results u = some .completed ∧ s'.edges u = none) ∧
     (∀ k' u, u ∈ s'.qdeps k' → s'.edges u = some t → k' ≠ k) := by
   have hq := runC_qinv ops init s GInv_init Forest_init QInv_init h
-  have hg := reach_full (runC_run ops init s h)
+  have hr := runC_run ops init s h
+  have hg := reach_full hr
+  have hkv : KInv s := run_kinv ops init s GInv_init KInv_init hr
+  have hno' : threadIdOfTransferredQuery (touch (touch s t) k) k none ≠ some (some t) := by
+    rw [threadIdOfTransferredQuery_touch2 (w4_forest ops s h) hkv t k]
+    exact fun e => hno (resolvedOwner_eq_some.mpr e)
   obtain ⟨h1, h2, h3⟩ := releaseSelf_handback (s0 := touch (touch s t) k)
-    (GInv_touch k (GInv_touch t hg)) (hq.congr rfl rfl rfl) hk hct (step_releaseSelf hs)
+    (GInv_touch k (GInv_touch t hg)) (hq.congr rfl rfl rfl) hk hct (step_releaseSelf hs) hno'
   refine ⟨h1, ⟨_, h2, rfl, rfl⟩, h3, ?_⟩
   intro k' u hu _ hkk
   subst hkk
   rw [h1] at hu; simp at hu
 
--- t2 blocks on the re-claimed key k1 (edge t2 → t1); the hand-back by t1 wakes it
+-- t0 re-claimed k1 (transferred to k2, owned by t1 which waits for t0); t2 blocks on k1 (edge t2 → t0);
+-- the chain of k1 resolves to t1 ≠ t0, so the hand-back by t0 wakes t2 and clears `anyone_waiting`
+example : (runC init handbackOps).isSome = true := by decide
+example : ((runC init (handbackOps.take 7)).map fun s =>
+      (s.edges 2, s.qdeps 1, (s.sync 1).map (·.claimedTwice), resolvedOwner s 1, s.edges 1)) =
+      some (some 0, [2], some true, some 1, some 0) := by decide
+example : ((runC init handbackOps).map fun s =>
+      (s.edges 2, s.results 2, s.qdeps 1, (s.sync 1).map (·.owner))) =
+      some (none, some .completed, [], some .transferred) := by decide
+example : ((runC init handbackOps).map fun s => ((s.sync 1).map (·.anyoneWaiting), checkW3 s [])) =
+      some (some false, true) := by decide
+
+/-- W3, hand-back part, own target (salsa e06010e) — WHY the waiters need not (and must not) be woken
+    when the releasing thread owns the transfer target.  Holds in EVERY state: if the transfer chain of
+    the re-claimed key `k` resolves to the releasing thread `t`, `release_self` wakes nobody and changes
+    nothing but the sync entry of `k` (`Transferred`, `claimed_twice` cleared, `anyone_waiting` KEPT, so
+    the eventual release of the target still wakes the waiters); `k` keeps its `transferred` entry and
+    still resolves to `t`; hence every waiter `u` of `k` whose edge satisfied the `claimed_twice` clause of
+    W3 before (it points at the owner `t`, or at the chain's resolved owner) satisfies the `Transferred`
+    clause after: its edge points at the resolved owner.  No waiter leaves the wait-for graph. -/
+theorem w3_handback_own_target_accurate (s : State) (t k : Nat) (st : SyncState)
+    (hk : s.sync k = some st) (hct : st.claimedTwice = true) (hown : resolvedOwner s k = some t)
+    (s' : State) (hs : step s (.releaseSelf t k) = some s') :
+    s'.edges = s.edges ∧ s'.qdeps = s.qdeps ∧ s'.results = s.results ∧
+    s'.transferred = s.transferred ∧ s'.tdeps = s.tdeps ∧
+    s'.sync k = some { st with claimedTwice := false, owner := .transferred } ∧
+    (∀ k', k' ≠ k → s'.sync k' = s.sync k') ∧
+    (s'.transferred k).isSome ∧ resolvedOwner s' k = some t ∧
+    (∀ u, u ∈ s'.qdeps k → (s.edges u = some t ∨ s.edges u = resolvedOwner s k) →
+      s'.edges u = resolvedOwner s' k) := by
+  have hb : s.bound ≤ (touch (touch s t) k).bound :=
+    Nat.le_trans (touch_bound_le s t).1 (touch_bound_le _ k).1
+  have hown0 : resolvedOwner (touch (touch s t) k) k = some t := resolvedOwner_mono (s := s) rfl hb hown
+  obtain ⟨e1, e2, e3, e4, e5, e6, e7, e8, e9⟩ := releaseSelf_handback_own_accurate
+    (s0 := touch (touch s t) k) hk hct (step_releaseSelf hs) hown0
+  refine ⟨e1, e2, e3, e4, e5, e6, e7, e8, e9, ?_⟩
+  intro u _ hu
+  rw [e9, e1]
+  show s.edges u = some t
+  rcases hu with hu | hu
+  · exact hu
+  · rw [hu, hown]
+
+-- t2 blocks on the re-claimed key k1 (edge t2 → t1); t1 owns the transfer target k2, so the hand-back by
+-- t1 leaves t2 blocked with an accurate edge (k1 resolves to t1) and keeps `anyone_waiting`; the release
+-- of k2 by t1 then wakes t2 through the transferred key
 example : ((runC init (transferOps.take 7 ++ [.claim 2 1 true true])).map fun s =>
-      (s.edges 2, s.qdeps 1, (s.sync 1).map (·.claimedTwice))) = some (some 1, [2], some true) ∧
-    ((runC init (transferOps.take 7 ++ [.claim 2 1 true true, .releaseSelf 1 1])).map fun s =>
-      (s.edges 2, s.results 2, s.qdeps 1, (s.sync 1).map (·.owner), checkW3 s [])) =
-      some (none, some .completed, [], some .transferred, true) := by decide
+      (s.edges 2, s.qdeps 1, (s.sync 1).map (·.claimedTwice), resolvedOwner s 1)) =
+      some (some 1, [2], some true, some 1) := by decide
+example : ((runC init (transferOps.take 7 ++ [.claim 2 1 true true, .releaseSelf 1 1])).map fun s =>
+      (s.edges 2, s.results 2, s.qdeps 1, (s.sync 1).map (·.owner))) =
+      some (some 1, none, [2], some .transferred) := by decide
+example : ((runC init (transferOps.take 7 ++ [.claim 2 1 true true, .releaseSelf 1 1])).map fun s =>
+      ((s.sync 1).map (·.anyoneWaiting), resolvedOwner s 1, checkW3 s [])) =
+      some (some true, some 1, true) := by decide
+example : ((runC init (transferOps.take 7 ++ [.claim 2 1 true true, .releaseSelf 1 1, .release 1 2 .completed])).map
+      fun s => (s.edges 2, s.results 2, s.qdeps 1)) = some (none, some .completed, []) := by decide
 -- after the owner released the transfer target, the transferred key k1 is stale and has no dependents
 example : ((runC init (transferOps.take 10)).map fun s =>
     ((s.sync 1).map (·.owner), s.transferred 1, s.qdeps 1)) = some (some .transferred, none, []) := by
